@@ -45,7 +45,11 @@ func runMany(cfg WorldCfg, scs []scn, each func(r scnResult)) {
 	for k := 0; k < workers; k++ {
 		go func() {
 			for j := range jobs {
-				w, c, res := runScenario(cfg, j.sc.steps)
+				cf := cfg
+				if j.sc.cfg != nil {
+					cf = *j.sc.cfg
+				}
+				w, c, res := runScenario(cf, j.sc.steps)
 				results[j.i] <- scnResult{j.sc, w, c, res}
 			}
 		}()
